@@ -40,7 +40,7 @@ EDIT_WEIGHTS = {"func": 0, "graph": 0.3, "c_rnv": 0.5, "io_iadd": 0, "attr_graph
 def plan(tier: str) -> dict:
     quick = tier == "quick"
     return {
-        "cases": 1200 if quick else 40000,
+        "cases": 6000 if quick else 60000,
         "shards": 16,
         "budget_s": 35 if quick else 540,
         "floors": {"roundtrips_judged": 400 if quick else 15000, "snapshots_compared": 400 if quick else 15000,
@@ -112,6 +112,16 @@ def build(ctx, case):
         edited = True
         feats.add("edit_history")
     gen_ir.uniquify_names(model)
+    # omitted optional outputs may be unnamed as None as well as "" (a graph names None outputs
+    # when the node is added, so this state is reached by un-naming afterwards)
+    for g in [model.graph] + [f.graph for f in model.functions.values()]:
+        for n in g:
+            outs = list(n.outputs)
+            while outs and outs[-1].name == "" and not outs[-1].uses() and not outs[-1].is_graph_output():
+                if rng.random() < 0.5:
+                    outs[-1].name = None
+                    feats.add("none_named_output")
+                outs.pop()
     if (model.ir_version or 0) >= 11 and not edited and rng.random() < 0.7:
         if gen_ir.annotate_devices(model, rng):
             feats.add("device_annotations")
